@@ -315,12 +315,25 @@ def frac_text(fr):
     if isinstance(fr, str): return fr
     return "%d/%d" % (fr.numerator, fr.denominator)
 
+_FRAC = re.compile(r"\bf(-?\d+)/(\d+)")
+def round_fracs(text):
+    """The model computes with exact rationals, Go with binary64: a decimal such as -0.25007 (APPEND of digits to a
+    float) is stored by Go as the nearest binary64.  Both sides are compared after rounding every rational to
+    binary64 once (exact for the dyadic values the generators use; for the others this states that Go holds the
+    correctly rounded value of what the model holds)."""
+    def r(m):
+        q = int(m.group(2))
+        if q == 0:
+            return m.group(0)
+        return "f%r" % float(Fraction(int(m.group(1)), q))
+    return _FRAC.sub(r, text)
+
 def norm_scalar_reply(impl, model):
     """If the model says 'f<rat>' and the implementation printed the float as text, compare as numbers."""
     if isinstance(model, str) and model.startswith("f") and isinstance(impl, str) and impl[:1] in "$+,":
         fr = float_text_to_frac(unhex(impl[1:]))
         if fr is not None:
-            return "f" + frac_text(fr), model
+            return round_fracs("f" + frac_text(fr)), round_fracs(model)
     return impl, model
 
 def _equiv(x, y):
@@ -372,7 +385,7 @@ def norm_tree(impl, model, unordered=False, pairs=False):
 
 _EMPTY_DB = re.compile(r" db-?\d+\{\}v\[\]")
 def norm_digest(line, with_mem=True, with_vol=True):
-    line = _EMPTY_DB.sub("", line)
+    line = round_fracs(_EMPTY_DB.sub("", line))
     if not with_mem:
         line = re.sub(r"mem=-?\d+", "mem=*", line)
     if not with_vol:
@@ -449,7 +462,8 @@ def forbidden_scan():
 def assumptions_of(prop, log_text):
     """Text printed by `Print Assumptions` in Properties/<prop>.v, taken from the .vo compile output
     (re-run coqc on that file alone: cheap, and independent of make's incremental state)."""
-    p = sh("coqc -Q . EV Properties/%s.v" % prop, cwd=COQ, check=False, timeout=900)
+    os.makedirs(os.path.join(BUILD, "pa"), exist_ok=True)
+    p = sh("coqc -Q . EV Properties/%s.v -o %s" % (prop, os.path.join(BUILD, "pa", prop + ".vo")), cwd=COQ, check=False, timeout=900)
     return p.returncode == 0, p.stdout
 
 # ---------------------------------------------------------------------------------------------
@@ -550,6 +564,7 @@ MODE_FUN = {
     "model18": ("Spec.SpecRunPubSub", "run_model18"), "spec18": ("Spec.SpecRunPubSub", "run_spec18"),
     "aof": ("Model.AofRun", "run_aof"), "spec02": ("Spec.SpecRunDurable", "run_spec02"),
     "snap": ("Model.SnapServer", "run_snap"), "spec12": ("Spec.SpecRunWire", "run_spec12"),
+    "model04": ("Model.ScriptExpiry", "run_model04"), "spec04": ("Spec.SpecRunExpiry", "run_spec04"),
 }
 
 def _coq_str(s):
